@@ -316,3 +316,24 @@ Proof.
   - apply run_events_strip; [intros; now apply IH|eapply HL; exact Hin|apply same_ctl_refl].
   - intros x y (E1 & E2 & E3 & E4 & E5 & E6). cbn. exact E4.
 Qed.
+
+(* With strip_comments a Comment node never contributes its text: at most one blank or one newline
+   stands in its place, whatever the comment holds. *)
+Lemma comment_stripped c rec s p ig rd idp t x x' :
+  kind t = K_Comment -> step3 c rec s p ig true rd idp (Enter t) x = ROk x' ->
+  s_out x' = s_out x \/ s_out x' = [32] :: s_out x \/ s_out x' = [10] :: s_out x.
+Proof.
+  intros Hk H. unfold step3 in H. rewrite Hk in H.
+  change (K_Comment =? K_SourceDescriptionNotDirective) with false in H.
+  change (K_Comment =? K_SourceDescription) with false in H.
+  change (is_kept_kind K_Comment) with false in H.
+  change (K_Comment =? K_UndefineCompilerDirective) with false in H.
+  change (K_Comment =? K_UndefineallCompilerDirective) with false in H.
+  change (K_Comment =? K_IfdefDirective) with false in H.
+  change (K_Comment =? K_IfndefDirective) with false in H.
+  change (is_ws_kind K_Comment) with false in H.
+  change (K_Comment =? K_Comment) with true in H. cbn [negb] in H.
+  destruct (node_locate t) as [l| | | |]; cbn [bind] in H; try discriminate.
+  destruct (starts_with [47; 42] (lstr s l)); [injection H as <-; cbn; auto|].
+  destruct (ends_with [10] (lstr s l) || (0 <? rd)); injection H as <-; cbn; auto.
+Qed.
